@@ -158,7 +158,11 @@ impl AbsDef {
 }
 
 pub fn template_string(tmpl: &str) -> String {
-    format!("{tmpl}/{{id}}")
+    // "raw:<template>" is taken as it stands (UriTemplate.tla families)
+    match tmpl.strip_prefix("raw:") {
+        Some(raw) => raw.to_string(),
+        None => format!("{tmpl}/{{id}}"),
+    }
 }
 
 /// Independent expansion of "<tmpl>/{id}": base32hex (no padding) of the id's big-endian
